@@ -242,10 +242,11 @@ theorem HeaderM.hash_inv (H : Bytes → Bytes) (h : HeaderM) (hi : h.Inv H) :
     (h.hash H).1 = H (marshal goHeader h.fields) ∧ (h.hash H).2.Inv H ∧ (h.hash H).2.fields = h.fields := by
   unfold HeaderM.hash
   by_cases hz : h.cache = zero32
-  · simp [hz, HeaderM.Inv]
-  · rcases hi with hi | hi
+  · rw [if_pos hz]; exact ⟨rfl, Or.inr rfl, rfl⟩
+  · rw [if_neg hz]
+    rcases hi with hi | hi
     · exact absurd hi hz
-    · simp [hz, HeaderM.Inv, hi]
+    · exact ⟨hi, Or.inr hi, rfl⟩
 
 /-- `k` calls of `Hash()` -/
 def hashN (H : Bytes → Bytes) : Nat → HeaderM → HeaderM
@@ -331,22 +332,24 @@ theorem ofPb_toPb (m : BlockRequestMessage) (h : m.wf) :
   simp only at h1 h2 h3 h4
   have e1 : 16777216 * rd / 16777216 % 256 = rd := by omega
   have e2 : dir % 256 = dir := Nat.mod_eq_of_lt h2
-  have e3 : (if mx.getD 0 = 0 then none else some (mx.getD 0)) = (if mx = some 0 then none else mx) := by
-    cases mx with
-    | none => simp
-    | some k => by_cases hk : k = 0 <;> simp [hk]
   cases sb with
   | number n =>
     have hlt : (if 4294967295 < n then 4294967295 else n) < 256 ^ 4 := by
       have : (256:Nat) ^ 4 = 4294967296 := by decide
       rw [this]; split <;> omega
     simp only [BlockRequestMessage.ofPb, BlockRequestMessage.toPb, fromBlockEncode, length_leBytes,
-      if_true, natOfLE_leBytes_lt hlt, e1, e2, e3, BlockRequestMessage.norm]
+      if_true, natOfLE_leBytes_lt hlt, e1, e2, BlockRequestMessage.norm]
+    cases mx with
+    | none => simp
+    | some k => by_cases hk : k = 0 <;> simp [hk]
   | hash b =>
     have hb : b.length = 32 := h4 b rfl
     have e4 : bytesToHash b = b := by simp [bytesToHash, hb]
-    simp only [BlockRequestMessage.ofPb, BlockRequestMessage.toPb, fromBlockEncode, e1, e2, e3, e4,
+    simp only [BlockRequestMessage.ofPb, BlockRequestMessage.toPb, fromBlockEncode, e1, e2, e4,
       BlockRequestMessage.norm]
+    cases mx with
+    | none => simp
+    | some k => by_cases hk : k = 0 <;> simp [hk]
 
 /-- **BlockRequestMessage round trip** (block.go `Encode` then `Decode`): the message comes back
     up to what the wire format cannot express — `Max = &0` reads back as nil, a start number
